@@ -222,6 +222,19 @@ def check(run, ctx):
             run.finding(M8, f"{mod}._extract_numeric_value", f"exponent-test:{norm(t)}", f"`{norm(t)}` sends every literal containing the letter e to float(): hex literals such as 0xE0 or 0x1e raise ValueError there and are silently dropped", f.loc)
         else:
             run.undecided(M8, f"{mod}._extract_numeric_value", f"unrecognised decision {norm(t)}")
+    M13 = run.rule("M13", "literal text is cleaned by affix removal, never by a character-set strip: every str.strip/lstrip/rstrip argument in the magic-number code is a single character (or absent)", floor=3,
+                   decides="the reported value is the literal's value: `42u32` is 42, not what is left after deleting every trailing character that occurs in the suffix")
+    for m in repo.modules_in(PKG):
+        calls = [n for n in ast.walk(m.tree) if isinstance(n, ast.Call) and isinstance(n.func, ast.Attribute) and n.func.attr in ("strip", "lstrip", "rstrip") and n.args]
+        bad = []
+        for n in calls:
+            v = repo.fold(m, n.args[0])
+            if not (isinstance(v, str) and len(set(v)) <= 1):
+                bad.append(n)
+        for n in bad:
+            run.finding(M13, f"{m.name.split('.')[-1]}", f"charset-strip:{norm(n)[:50]}", f"`{norm(n)[:70]}` deletes every leading/trailing character that occurs in the argument (str.strip takes a character set, not an affix): `42u32`.rstrip('u32') is `4`, `64u64` becomes empty and is dropped", f"{m.rel}:{n.lineno}")
+        if not bad:
+            run.ok(M13, m.name, f"{len(calls)} strip-family calls with an argument, all single-character")
     M9 = run.rule("M9", "the parsed MagicNumberConfig is not stored on the rule instance without a language key", floor=1,
                   decides="allowed_numbers / max_small_integer of each file's own language apply, whatever file the run saw first")
     recs = [r_ for r_ in shared.config_memoisation(ctx, L) if r_["rule"] == rule.short]
